@@ -64,6 +64,13 @@ def scripts(rng, tier, n=None):
             tail_bits = [b for b in bits if b >= 8 * (tot - p.trailer(not rtcp))]
             sample = set(tail_bits if tier != "quick" else rng.sample(tail_bits, min(12, len(tail_bits))))
             sample |= set(bits if tier != "quick" and tot < 120 else rng.sample(bits, min(24, len(bits))))
+            if rtcp:
+                # the E flag and the top of the SRTCP index: the first trailer octet, wherever this kind of policy puts the trailer
+                # (before MKI and tag; with AES-GCM after the tag) — every bit of it, in every run
+                msz = p.mki_size if p.use_mki else 0
+                for o in {tot - p.trailer(False), tot - 4 - msz}:
+                    if 8 <= o < tot:
+                        sample |= set(range(8 * o, 8 * o + 8))
             for b in sorted(sample):
                 muts.append(f"@{src:x}~{b:x}")
             for d in (range(1, 41) if tier != "quick" else [1, 2, 4, 10, 11, 20, 39]):
